@@ -39,6 +39,9 @@ def jobs(tier):
     # column-major / non-contiguous dense input (a transposed or time-reversed chain, pandas .values, loadmat output)
     for layout in ('F', 'view'):
         add('n=3,[0]->[2],%s-layout' % layout, n=3, sources=[0], sinks=[2], layout=layout)
+    # the same array objects analysed before with other contents, then overwritten in place: no state may be carried between calls
+    add('n=3,[0]->[2],arrays re-used after an earlier analysis', n=3, sources=[0], sinks=[2], reuse=True)
+    add('n=3,[0]->[1,2],arrays re-used after an earlier analysis', n=3, sources=[0], sinks=[1, 2], reuse=True)
     chain = [[abs(i - j) <= 1 for j in range(4)] for i in range(4)]
     add('n=4,chain,[0]->[3]', n=4, sources=[0], sinks=[3], zero_pattern=chain)
     if not q:
